@@ -142,6 +142,29 @@ func runC20(c *Ctx) {
 		okPort = len(tcp) == 1
 		if okPort {
 			_, okPort = c.Guarded(tcp[0].In, Bin("==", Is(pv), Const(`""`)), false)
+		} else if any := c.Calls(from.SSA, Call("go-multiaddr.NewComponent", Field("Name", Call("go-multiaddr.ProtocolWithCode", Const(tcpName))), Any())); len(any) == 1 {
+			// the value may be the URL's port or, where the URL has none, a configured default: every other source of
+			// the value is chosen only under Port() == "", and the component is added whenever the value is non-empty
+			v := any[0].X.Args[1]
+			okPort = true
+			nPort := 0
+			for _, l := range c.LeavesF(v, any[0].In) {
+				if Same(l.Val, pv) {
+					nPort++
+					continue
+				}
+				noPort := false
+				for _, fct := range l.Facts {
+					if _, m := Match(Bin("==", Is(pv), Const(`""`)), fct.Cond); m && fct.Val {
+						noPort = true
+					}
+				}
+				if !noPort {
+					okPort = false
+				}
+			}
+			_, g := c.Guarded(any[0].In, Bin("==", Is(v), Const(`""`)), false)
+			okPort = okPort && nPort >= 1 && g
 		}
 	}
 	c.Check(okPort, "C20.X2-fields-covered", from.Name+" › port", from.SSA.Pos(), "a non-empty port becomes a tcp component", "URL port does not reach the multiaddr as a tcp component")
